@@ -224,6 +224,7 @@ def gen_case(tape, tier):
             cfg["max_size"] = tape.pick([None, 1, 2, 3], "disk-max")
             cfg["with_lru"] = bool(tape.coin(0.6, "with-lru"))
             cfg["lru_size"] = 1 + tape.choose(2, "lru-size")
+            cfg["nested"] = bool(tape.coin(0.15, "nested-dir"))
         if tape.coin(0.2, "key-alphabet"):
             cfg["alphabet"] = tape.pick(sorted(ALPHABETS), "alphabet")
         if cls == "hybrid":
@@ -247,7 +248,8 @@ def gen_case(tape, tier):
                 nv += 1
                 ops.append({"op": "put", "key": tape.pick(KEYS, "key"),
                             "value": None if tape.coin(0.15, "none-value") else ("<unstorable>" if tape.coin(0.06, "unstorable") else
-                                                                                      (f"<bytes>{nv}" if tape.coin(0.08, "bytes-value") else f"v{nv}")),
+                                                                                      (f"<bytes>{nv}" if tape.coin(0.08, "bytes-value") else
+                                                                                       ("<same>" if tape.coin(0.12, "same-value") else f"v{nv}"))),
                             "duration": tape.pick(([5000, 3e-9, 1e-9, 2e-9, 1.0] if spread else [1, 2, 3, 5, 8]) if stress
                                                   else [0, 0, 1, 1, 2, 5], "duration"),
                             "ctime_step": tape.pick([0, 1, 1, 2, -1], "ctime-step")})
@@ -456,6 +458,16 @@ def run_A(case, tape):
             c = make_cache(cfg, root)
             m = make_model(cfg)
             sim.fs.ctimes_now = now
+            inner = None
+            if cfg["cls"] == "disk" and cfg.get("nested"):
+                # another cache lives in a sub-directory of this one's directory (cache/ and cache/stage2/): neither may
+                # count, evict or clear the other's files
+                import pipefunc.cache as pc
+
+                inner = pc.DiskCache(os.path.join(root, "cache", "stage2"), max_size=None, with_lru_cache=False)
+                for j in range(3):
+                    inner.put(f"inner-{j}", j)
+                probes["nested_cache_dir"] = 1
             for i, op in enumerate(ops):
                 before = {k: m.present(k) for k in KEYS}
                 try:
@@ -520,6 +532,8 @@ def run_A(case, tape):
                 if not pres and got is not None:
                     V("model", "absent-but-get-returns", {"key": k, "got": repr(got)})
                     return
+            if inner is not None and (len(inner) != 3 or any(inner.get(f"inner-{j}") != j for j in range(3))):
+                V("model", "nested-cache-disturbed", {"inner_len": len(inner)})
 
         with sim:
             try:
@@ -555,6 +569,12 @@ def _bytes_value(n):
 
 def _put(c, m, op, cfg, sim, now, before, V, probes):
     k, v = op["key"], op["value"]
+    if v == "<same>":
+        # the value the key already has (a recomputed, equal result is stored again): still a use of the key
+        cur = m.value(k) if m.present(k) else None
+        op = dict(op, value=cur if cur is not None else "v-same")
+        v = op["value"]
+        probes["same_value_reput"] = probes.get("same_value_reput", 0) + 1
     if v == "<huge>":
         op = dict(op, value=_Huge(65 << 20))
         v = op["value"]
